@@ -166,3 +166,31 @@ Print Assumptions C10round_parse_param_twice_refuted.
 Theorem C10round_value_comment_refuted : value_comment_refuted_stmt.
 Proof. exact value_comment_refuted. Qed.
 Print Assumptions C10round_value_comment_refuted.
+
+(* production spans (/repo 69c4b9b): with the repaired end every production's span selects the text of
+   its items without the layout that follows, with or without an action; the pinned variant is refuted *)
+Theorem C10round_ast_of_prod_spans : ast_of_prod_spans_stmt.
+Proof. exact ast_of_prod_spans. Qed.
+Print Assumptions C10round_ast_of_prod_spans.
+
+Theorem C10round_prod_span_ends_after_last_symbol : prod_span_ends_after_last_symbol_stmt.
+Proof. exact prod_span_ends_after_last_symbol. Qed.
+Print Assumptions C10round_prod_span_ends_after_last_symbol.
+
+Theorem C10round_prod_span_action_layout_refuted : prod_span_action_layout_refuted_stmt.
+Proof. exact prod_span_action_layout_refuted. Qed.
+Print Assumptions C10round_prod_span_action_layout_refuted.
+
+(* known findings: the named condition of wf_action that excludes braces in literals/comments of action
+   code, a pair violating only it, and layout after an action type *)
+Theorem C10round_wf_layout_split : wf_layout_split_stmt.
+Proof. exact wf_layout_split. Qed.
+Print Assumptions C10round_wf_layout_split.
+
+Theorem C10round_action_literal_brace_refuted : action_literal_brace_refuted_stmt.
+Proof. exact action_literal_brace_refuted. Qed.
+Print Assumptions C10round_action_literal_brace_refuted.
+
+Theorem C10round_actiontype_layout_refuted : actiontype_layout_refuted_stmt.
+Proof. exact actiontype_layout_refuted. Qed.
+Print Assumptions C10round_actiontype_layout_refuted.
